@@ -307,6 +307,13 @@ func writeRecordConverters(w *formatting.IndentedWriter, t *dsl.RecordDefinition
 			w.Indented(func() {
 				fmt.Fprintf(w, "it->get_to(value.%s);\n", common.FieldIdentifierName(field.Name))
 			})
+			if dsl.TypeHasNullOption(field.Type) {
+				// null fields are omitted by to_json: an absent field means null, not "keep what the destination held"
+				w.WriteStringln("} else {")
+				w.Indented(func() {
+					fmt.Fprintf(w, "value.%s = {};\n", common.FieldIdentifierName(field.Name))
+				})
+			}
 			w.WriteStringln("}")
 		}
 	})
